@@ -42,6 +42,7 @@ type tsigCase struct {
 	Other      []byte
 	RefSigned  bool    // the reference signs (header ID may differ from OrigId by IDDelta)
 	IDDelta    uint16  // header ID = OrigId + IDDelta (reference-signed: the header is rewritten after signing; library-signed: Msg.Id differs from the TSIG's OrigId before TsigGenerate, RFC 8945 4.2 "Original ID")
+	StaleStub  bool    // library-signed: the TSIG stub handed to TsigGenerate still carries a MAC from an earlier use
 	Sample     []int   // sampled flip positions for long messages
 	Far        []int64 // verifier clock offsets (now - time signed) far outside the window: +-(k*2^j) + d, |d| <= fudge+1
 	Secret2    []byte  // "wrong secret" for the only-if clause
@@ -179,6 +180,13 @@ func checkTsig(c tsigCase) (err error) {
 		ts := m.IsTsig()
 		ts.Error = c.Error
 		ts.OtherLen, ts.OtherData = uint16(len(c.Other)), hex.EncodeToString(c.Other)
+		if c.StaleStub {
+			// the stub is a TSIG value that was used before (a template kept by the caller): MAC and
+			// MAC size still hold the previous message's; TsigGenerate must replace them, and must send
+			// an empty MAC for BADSIG / BADKEY answers (RFC 8945 5.3.2)
+			ts.MAC, ts.MACSize = "00112233445566778899aabbccddeeff00112233", 20
+			classes = append(classes, "stub-with-stale-mac")
+		}
 		if c.IDDelta != 0 {
 			// the message was first sent (and its TSIG set up) under another ID: the MAC covers that
 			// original ID, whatever ID the header carries now
@@ -613,6 +621,7 @@ func genTsig(t *rapid.T) tsigCase {
 	if rapid.IntRange(0, 2-btoi(c.RefSigned)).Draw(t, "otherid") == 0 {
 		c.IDDelta = rapid.Uint16Range(1, 65535).Draw(t, "iddelta")
 	}
+	c.StaleStub = rapid.IntRange(0, 2).Draw(t, "stalestub") == 0
 	c.Sample = rapid.SliceOfN(rapid.IntRange(0, 1<<22), 64, 64).Draw(t, "sample")
 	for i := 0; i < 6; i++ {
 		j := rapid.IntRange(8, 47).Draw(t, "farbit")
